@@ -46,7 +46,13 @@ def _ops(draw, kind, d, cfg, allow_long=True):
                 longs += m2_ != m_
                 ops.append(["advance", m2_])
             continue
-        k = draw(st.sampled_from(["step", "step", "advance", "exchange", "exchange", "restart", "inspect", "scribble", "interrupt"]))
+        k = draw(st.sampled_from(["step", "step", "advance", "exchange", "exchange", "restart", "inspect", "scribble", "interrupt"]
+                                 + (["limits"] if kind in ("gibbs", "metropolis") else [])))
+        if k == "limits":
+            # limits set / changed / cleared on a chain that has already moved (also to an interval away from where it is)
+            ops.append(["limits", draw(st.integers(0, 8)), draw(st.sampled_from(["around", "away", "away", "remove", "nonneg", "nonneg_off"])),
+                        draw(st.integers(0, 2 ** 16))])
+            continue
         if k == "interrupt":
             # the user's posterior raises in the middle of an advance; the caller catches it and keeps using the sampler
             ops.append(["interrupt", draw(st.sampled_from([1, 3, 12])), draw(st.integers(1, 40))])
@@ -166,6 +172,9 @@ def run_ops(h, ops, V, stats, inputs, snap, xrng, scribble_ok=False):
                     _viol(V, "exchange.installed", "%s: after an exchange installing %r the last recorded sample is %r"
                           % (h.label, pos.tolist(), S[-1].tolist()))
                 stats["fault_exchange_installs_foreign_point"] += 1
+            elif name == "limits":
+                if lc.op_limits(h, op[1], op[2], op[3]):
+                    stats["op_limits_changed_on_live_chain"] += 1
             elif name == "scribble":
                 # the caller re-uses its start array for something else: recorded history must not follow it
                 # (only done by a sampler that owns a private copy of the inputs, i.e. not inside a shared group)
